@@ -46,17 +46,43 @@ pub enum Family {
 }
 
 pub fn any_state() -> Axecutor {
+    any_state_with(false)
+}
+
+/// `bounded_values`: the value-bounded stand-in used for the operand-routing half of the wide
+/// multiply/divide obligations: every general purpose register holds a sign-extended 4-bit value and
+/// every memory byte of an area is the same 0x00 / 0xFF fill (so any little-endian read is 0 or -1)
+pub fn any_state_with(bounded_values: bool) -> Axecutor {
     let regs: [u64; 17] = kani::any();
+    if bounded_values {
+        let mut k = 1;
+        while k < 17 {
+            kani::assume((regs[k] as i64) >= -8 && (regs[k] as i64) < 8);
+            k += 1;
+        }
+    }
     let xmm: [u128; 16] = kani::any();
     let mut mem = [MemWin { base: 0, data: [0u8; WIN], access: 0 }; NWIN];
     let mut w = 0;
     while w < NWIN {
         mem[w].base = kani::any();
         mem[w].data = kani::any();
+        if bounded_values {
+            let fill: u8 = kani::any();
+            kani::assume(fill == 0 || fill == 0xff);
+            let mut k = 0;
+            while k < WIN {
+                kani::assume(mem[w].data[k] == fill);
+                k += 1;
+            }
+        }
         mem[w].access = kani::any();
         // L0m representation invariant: no area wraps around 2^64, permission mask <= 7
         kani::assume(mem[w].base <= u64::MAX - WIN as u64);
         kani::assume(mem[w].access <= 7);
+        // only permission combinations that exist on x86-64 hardware: a writable or executable page is
+        // readable (there is no write-only / execute-only mapping for the CPU to complete an access on)
+        kani::assume(mem[w].access & 6 == 0 || mem[w].access & 1 != 0);
         w += 1;
     }
     // ... and areas are pairwise disjoint
@@ -65,10 +91,14 @@ pub fn any_state() -> Axecutor {
     }
     let cs_len: u8 = kani::any();
     kani::assume(cs_len <= 2);
+    // architecturally possible RFLAGS values: reserved bits 3, 5, 15 and 22..63 read as zero
+    // (bit 1 reads as one on hardware; ax starts from 0, so it is left free)
+    let rflags: u64 = kani::any();
+    kani::assume(rflags & 0xffff_ffff_ffc0_8028 == 0);
     let state = MachineState {
         regs,
         xmm,
-        rflags: kani::any(),
+        rflags,
         fs: kani::any(),
         gs: kani::any(),
         finished: false,
@@ -136,9 +166,21 @@ pub fn run_form(
     family: Family,
     entry: fn(&mut Axecutor, Instruction) -> Result<(), crate::helpers::errors::AxError>,
 ) {
+    run_form_with(code, ops, shape, expect, family, entry, false)
+}
+
+pub fn run_form_with(
+    code: Code,
+    ops: &[OpClass],
+    shape: Shape,
+    expect: Expect,
+    family: Family,
+    entry: fn(&mut Axecutor, Instruction) -> Result<(), crate::helpers::errors::AxError>,
+    bounded_values: bool,
+) {
     let mut nd = KaniNd;
     let (i, _b): (Instruction, _) = build(&mut nd, code, ops, shape);
-    let mut ax = any_state();
+    let mut ax = any_state_with(bounded_values);
     // step() advances RIP to the next instruction before dispatch (L3 contract, proved in the step unit)
     ax.state.regs[0] = i.next_ip();
     let pre = ax;
